@@ -305,14 +305,15 @@ def make(seed):
 # write menu on the primary base: (offset, value key); simplest first
 WRITES = [
     (0, ("X", 8)), (-1, ("X", 16)), (0, ("X", 32)), (-2, ("X", 32)), (1, ("X", 16)), (-1, ("X", 64)),
-    (-1, ("C", 16)), (0, ("C", 32)), (-2, ("C", 8)),
-    (0, ("O", 8)), (-1, ("O", 16)), (-2, ("O", 32)),
+    (-1, ("C", 16)), (0, ("C", 32)),
+    (0, ("O", 8)), (-1, ("O", 16)),
     (-1, ("M", 16, 1)), (0, ("M", 16, -1)),
     (0, ("S", 8, 0)), (-1, ("S", 16, 1)),
     (-1, ("K", 16)), (-1, ("R", 16, 1)),
     (0, ("U", 16, 4)),
 ]
 WRITES_MORE = [
+    (-2, ("C", 8)), (-2, ("O", 32)),
     (1, ("X", 8)), (-2, ("X", 64)), (-2, ("Y", 16)), (1, ("C", 16)), (-2, ("M", 32, 1)), (0, ("K", 16)), (-1, ("S", 16, 0)),
     (0, ("O", 64)), (2, ("X", 32)), (0, ("R", 16, 0)), (-1, ("R", 8, 2)),
     (-1, ("U", 32, 1)), (0, ("V", 8, 4)), (-1, ("V", 8, 4)), (-2, ("U", 8, 7)),
@@ -633,12 +634,12 @@ def _plan():
         if seed not in SEEDS:
             SEEDS.append(seed)
         PLAN[tier].append(SEEDS.index(seed))
-    # quick: depth 3 on two systems, depth 2 on the four others, depth 2 behind the three seeded stores
+    # quick: depth 3 on two systems (both address sizes, bases A and A+B), depth 2 on the integer base at address size 8 and
+    # behind two seeded stores (one of them the integer base at address size 32); the thorough tier has all six systems
     for asz, primary in ((8, SYM), (32, SUM)):
         add("quick", (asz, primary, (), 3, False))
-    for asz, primary in ((32, INT), (8, INT), (8, SUM), (32, SYM)):
-        add("quick", (asz, primary, (), 2, False))
-    for asz, primary, pre in ((8, SYM, PRE1), (32, INT, PRE2), (32, SUM, PRE3)):
+    add("quick", (8, INT, (), 2, False))
+    for asz, primary, pre in ((8, SYM, PRE1), (32, INT, PRE2)):
         add("quick", (asz, primary, pre, 2, False))
     # thorough: depth 4 on four systems (base menu), depth 3 with the extended menu on all six, depth 3 behind six seeded
     # stores (one search = one process; sized for <= 15 min at load ~130: about 400k transitions)
